@@ -3,7 +3,8 @@
  *   new / <config> / load / pre <op> ...
  *   shmem <k>       store A in a file at offset k pages, adopt it in a forked child, exercise the adopted copy:
  *     length rc= len=                    hwloc_shmem_topology_get_length
- *     allocseq n s...                    sizes requested by hwloc__topology_dup(A) under a logging tma (refreshed A)
+ *     allocseq0 n s...                   sizes requested by hwloc__topology_dup(A) under a logging tma: what get_length counts
+ *     allocseq n s...                    the same after the refresh hwloc_shmem_topology_write performs: what is written
  *     write <rc=..errno=..|SIG<n>>       hwloc_shmem_topology_write in a forked child; the page after the mapping is PROT_NONE
  *     file size=ok|BAD prefix=ok|BAD tail=ok|BAD:<off> used=<bytes>   bytes before the offset untouched, bytes after the used area still 0
  *     reject <case> rc= errno=           adoption with a wrong argument / header / busy range
@@ -211,8 +212,17 @@ static void do_shmem(hwloc_topology_t A, unsigned k)
   errno = 0; rc = hwloc_shmem_topology_get_length(A, &len, 0);
   printf("length rc=%d len=%zu\n", rc, len);
   if (rc < 0) return;
+  { /* what get_length counted: the topology as it is now (caches possibly stale) */
+    struct hwv_alloclog log = { 0 }; struct hwloc_tma tma; hwloc_topology_t C = NULL;
+    tma.malloc = hwv_log_malloc; tma.dontfree = 0; tma.data = &log;
+    rc = hwloc__topology_dup(&C, A, &tma);
+    printf("allocseq0 %u", log.n);
+    for (i = 0; i < log.n; i++) printf(" %zu", log.sizes[i]);
+    fputc('\n', stdout);
+    if (!rc) hwloc_topology_destroy(C);
+    free(log.sizes); free(log.ptrs); }
   { struct hwv_alloclog log = { 0 }; struct hwloc_tma tma; hwloc_topology_t C = NULL;
-    hwloc_topology_refresh(A);     /* hwloc_shmem_topology_write refreshes distances/memattrs before duplicating */
+    hwloc_topology_refresh(A);     /* hwloc_shmem_topology_write refreshes distances/memattrs before duplicating: what is written */
     tma.malloc = hwv_log_malloc; tma.dontfree = 0; tma.data = &log;
     rc = hwloc__topology_dup(&C, A, &tma);
     printf("allocseq %u", log.n);
